@@ -119,3 +119,9 @@
 (assert (forall ((v Val)) (! (=> (= (tagof v) tag.rel.Array) (= (subsetBucket v) arrBkt)) :pattern ((subsetBucket v)))))
 (assert (forall ((v Val)) (! (=> (= (tagof v) tag.rel.Bytes) (= (subsetBucket v) bytesBkt)) :pattern ((subsetBucket v)))))
 (assert (forall ((v Val)) (! (=> (= (tagof v) tag.rel.Dict) (= (subsetBucket v) dictBkt)) :pattern ((subsetBucket v)))))
+; ---- x-c01 additions --------------------------------------------------------------------------------------------
+; Equal set values have the same number of members (ASSUMED: consequence of extensional equality, C02, and of
+; count = number of distinct members, C01; used by syntax.subsetOrSuperset only).
+(assert (forall ((a Val) (b Val)) (! (=> (eq a b) (= (scard a) (scard b))) :pattern ((eq a b) (scard a)) :pattern ((eq a b) (scard b)))))
+; (not added: bucketOf(v) == genericBkt for every set-valued tag — needed only by the PowerSet draft in rel/verif_contracts_c01.go;
+;  left out until PowerSet is under contract: an axiom with pattern (bucketOf v) and an 8-way antecedent is instantiated in every routed(..) query)
